@@ -159,6 +159,8 @@ type FuncVC struct {
 	lockOps int
 	strEqDone map[string]bool
 	frameT   map[string]modTarget
+	privCells map[*ssa.Alloc]bool // memo of privateCell (calls.go)
+	edgeHits map[*Clause]int // back-edge clauses: number of edges each was generated for
 	frameAll bool
 	allocBoundTerm string
 	cardDone map[string]bool
@@ -457,7 +459,7 @@ func shortPkg(path string) string {
 func calleeKeys(c *ssa.CallCommon) []string {
 	if c.IsInvoke() {
 		// interface method
-		rt := c.Value.Type()
+		rt := types.Unalias(c.Value.Type()) // os.FileInfo is an alias of io/fs.FileInfo
 		name := ""
 		if n, ok := rt.(*types.Named); ok {
 			if n.Obj().Pkg() != nil && n.Obj().Pkg().Path() != "github.com/absfs/absnfs" {
